@@ -216,7 +216,7 @@ SPECS["C01"] = dict(
 
 def c02_jobs(tier):
     if tier == "quick":
-        return [dict(harness="gen_glue", pattern=r"^gen/n5k1m3/[A-Za-z]+/LargestMagn/maxit[01]/ic$|^genshift/n5k1m3/.*/maxit[01]/|^genhist/n5k1m3/.*/maxit0/|^gen/n5k2m4/LargestMagn/LargestMagn/maxit0/",
+        return [dict(harness="gen_glue", pattern=r"^gen/n5k1m3/[A-Za-z]+/LargestMagn/maxit[01]/ic$|^genshift/n5k1m3/.*/maxit[01]/|^genhist/n5k1m3/.*/maxit0/|^gen/n5k2m4/(LargestMagn/LargestMagn|LargestReal/SmallestReal|LargestMagn/SmallestImag)/maxit0/|^genshift/n5k2m4/.*/maxit0/",
                      label="general glue (5,1,3) maxit<=1, (5,2,4) maxit 0, histories", deadline=280)]
     return [dict(harness="gen_glue", pattern=r"^(gen|genshift)/n(5k1m3|5k2m4)/.*/maxit[012]/|^gen/n(6k2m5|6k3m5|7k1m6)/.*/maxit[01]/|^genhist/n(5k1m3|5k2m4)/.*/maxit[01]/", label="general glue", deadline=3300)]
 
@@ -245,7 +245,7 @@ def c05_jobs(tier):
     if tier == "quick":
         return [dict(harness="sym_glue", pattern=r"^sym/n4k2m3/(LargestMagn|BothEnds)/(LargestMagn|SmallestAlge|SmallestMagn)/maxit[01]/ic$|^sym/n3k1m2/.*/maxit[012]/ic$|^hist/n3k1m2/.*/maxit1/icic$",
                      label="symmetric: all sorting rules, accessors, counters", deadline=200),
-                dict(harness="gen_glue", pattern=r"^gen/n5k1m3/(LargestReal|LargestMagn)/(SmallestReal|SmallestImag)/maxit[01]/ic$|^genshift/n5k1m3/LargestReal/SmallestReal/maxit[01]/|^genhist/n5k1m3/.*/maxit0/",
+                dict(harness="gen_glue", pattern=r"^gen/n5k1m3/(LargestReal|LargestMagn)/(SmallestReal|SmallestImag)/maxit[01]/ic$|^genshift/n5k1m3/LargestReal/SmallestReal/maxit[01]/|^genhist/n5k1m3/.*/maxit0/|^gen/n5k2m4/LargestReal/SmallestReal/maxit0/|^genshift/n5k2m4/LargestReal/SmallestReal/maxit0/",
                      label="general: sorting rules, accessors, counters", deadline=200)]
     return [dict(harness="sym_glue", pattern=r"^(sym|symshift|hist)/n(3k1m2|4k2m3|5k2m4)/.*/maxit[012]/", label="symmetric", deadline=3000),
             dict(harness="gen_glue", pattern=r"^(gen|genshift|genhist)/n(5k1m3|5k2m4)/.*/maxit[01]/", label="general", deadline=3000)]
@@ -329,4 +329,40 @@ SPECS["C13"] = dict(
     technique="symbolic execution of the real restart-size / restart logic from arbitrary Ritz states and of whole runs over kernel contracts, under Eigen assertions + ASan/UBSan; z3 decides path feasibility",
     level_text="bounded symbolic verification of index safety and the work bound of the restart logic for all Ritz states at ncv<=8; whole-run paths under sanitizers at small sizes",
     level_note="kernels abstracted (their own memory safety is exercised by the real-kernel checks C07-C10 built with Eigen assertions); tie-separated conjugate pairs assumed away",
+)
+
+
+# ------------------------------------------------------------------------------------------------
+# C07: Krylov factorization invariant on the real Arnoldi / Lanczos code
+def c07_jobs(tier):
+    if tier == "quick":
+        return [dict(harness="c07_krylov", pattern=r"-step/n[34]/k\d/(regular|small)$|^lanczos-step/n3/k2/zero$|-init/n2/|^(arnoldi|lanczos)-init/n3/v0$|^init-zero-vector|^arnoldi-compress/n3/|^lanczos-compress/n3/m2|^lanczos-bstep/",
+                     label="one inductive step / init / compress / B-inner product, n<=4", deadline=280)]
+    return [dict(harness="c07_krylov", pattern=r"-step/n[34]/k\d/(regular|small)$|^lanczos-step/n3/k2/zero$|-init/|^init-zero-vector|^arnoldi-compress/|^lanczos-compress/n[34]/m2|^lanczos-bstep/",
+                 label="single-step cases n<=4, init with tolerance obligations", deadline=2400, env={"VERIF_C07_TOL": "1"}, cap=(20, 120))]
+
+
+SPECS["C07"] = dict(
+    run=std_run, jobs=c07_jobs,
+    explanation=("The REAL Arnoldi / Lanczos code (init, factorize_from incl. the 0.717 test and re-orthogonalisation loop, Lanczos local-restart test, expand_basis on breakdown, compress_H + compress_V, "
+                 "ArnoldiOp inner products with identity and with an SPD B) is executed symbolically for ONE inductive step from an ARBITRARY valid state instead of whole runs: the pre-state is "
+                 "generated constraint-free from a fixed rational orthogonal frame Qc (A = Qc Ahat Qc', Ahat symbolic in the Krylov zero pattern, V_k = Qc[:, :k], f = beta Qc[:,k]) so every valid "
+                 "factorization of that size is covered up to the choice of frame; beta is a rational chosen per threshold branch (3/4 regular, 1e-9 < sqrt(eps), exactly 0 = breakdown). After the "
+                 "step z3 proves entry-wise A V = V H + f e_k', V'BV = I, V'Bf = 0, H Hessenberg / symmetric tridiagonal, m_k = advertised dimension, beta^2 = f'Bf, and that the operation counter "
+                 "advanced by exactly the number of times the operator was really applied (also across breakdown restarts). Implicit restart: real compress_H/compress_V after a real single-shift QR "
+                 "(rotation contract K5) from k = m. init(): symbolic A, numeric start vectors (the library's default vector and two others); zero / sub-threshold start vectors are rejected with "
+                 "invalid_argument before the operator is applied. Division by a possibly-zero norm is a definedness obligation."),
+    functions=["Arnoldi<S,Op>::init, factorize_from, expand_basis, compress_H, compress_V", "Lanczos<S,Op>::factorize_from, compress_H", "ArnoldiOp<S,Op,IdentityBOp> and ArnoldiOp<S,Op,BOp>::inner_product, "
+               "adjoint_product, norm, perform_op", "UpperHessenbergQR/TridiagQR::compute, apply_YQ, matrix_QtHQ (with rotation contract)", "SimpleRandom<S> seed handling + next_long_rand (draw mapped to a small rational)"],
+    stubs=["compute_rotation := contract K5 (checked on the real code under C08)", "RandomScalar<S>::run: real generator state transition, draw mapped to a dyadic rational in [-0.5,0.5]"],
+    assumptions=["exact real arithmetic", "Lanczos compress: input sub-diagonals not negligible (TridiagQR's eps-deflation paths hold only to eps level by design and are recorded, not checked)"],
+    bounds={"quick": {"n": "3,4", "steps": "k -> k+1 for every k<n, regular and small beta; breakdown (beta=0) n=3", "init": "n=2 (3 vectors), n=3 default vector", "compress": "n=3, m=2,3", "B-inner product": "n=3,4",
+                      "skipped": "forced-zero tolerance obligations of init(); breakdown followed by a second step"},
+            "thorough": {"n": "3,4", "steps": "all incl. breakdown", "init": "n=2,3 all vectors incl. tolerance obligations", "compress": "n=3,4", "two-step breakdown": "n=4"}},
+    outside=[ROUNDING + " (so loss of orthogonality, the adequacy of eps-level thresholds and ||V'V-I||~1 on rank-deficient inputs are not visible)", "double-shift compress (C08 covers DoubleShiftQR itself)",
+             "sequences of more than one step are covered by induction only under exact arithmetic", "complex Hermitian scalars"],
+    policy=dict(events=lambda e, case: "ignore" if (e.get("site", "").endswith("Arnoldi::init") and e["kind"] == "div0") else "violation", allow_cut=False),
+    technique="symbolic execution of the real Arnoldi/Lanczos templates for one inductive step from an arbitrary valid state (constraint-free parametrisation); z3 proves the Krylov invariant entry-wise",
+    level_text="bounded inductive-step verification in exact real arithmetic: every valid factorization state of size n<=4 (fixed rational frame), every branch of one step / init / single-shift compress",
+    level_note="exact arithmetic; n<=4; one fixed orthogonal frame per n; trusted: g++, Eigen, z3/cvc5, symx",
 )
